@@ -436,6 +436,38 @@ theorem ctxGenFinish_frame (cid : CtxId) (x : Ctx) (fid : Nat) (next : Option Ta
       · exact Frame.trans (y := { x with pending := x.pending.filter fun q => q.fid ≠ fid })
           ⟨rfl, rfl, rfl, rfl⟩ ((storeGenerated_frame _ _ _ _).trans (resumeWaiters_frame _ _ _))
 
+/-- The context after the waiter `lid` left every queue it waited in. -/
+def dropWaiter (x : Ctx) (lid : TaskId) : Ctx :=
+  { x with pending := x.pending.map fun p => { p with waiters := p.waiters.filter (fun w => w.1 ≠ lid) } }
+
+/-- The context after the generation of factory `fid` was abandoned (or has ended). -/
+def dropGen (x : Ctx) (fid : Nat) : Ctx :=
+  { x with pending := x.pending.filter fun q => q.fid ≠ fid }
+
+/-- The possible resulting contexts of `ctxCancelGet`. -/
+theorem ctxCancelGet_fst (cid : CtxId) (x : Ctx) (lid : TaskId) (next : Option TaskId) :
+    (ctxCancelGet cid x lid next).1 = x ∨
+    (∃ p0, x.pending.find? (fun p => p.task = lid) = some p0 ∧
+      (ctxCancelGet cid x lid next).1 =
+        (resumeWaiters cid (dropGen x p0.fid) (wakeOrder next p0.waiters)).1) ∨
+    (x.pending.find? (fun p => p.task = lid) = none ∧
+      (ctxCancelGet cid x lid next).1 = dropWaiter x lid) := by
+  unfold ctxCancelGet
+  cases hp : x.pending.find? (fun p => p.task = lid) with
+  | some p0 => right; left; exact ⟨p0, rfl, rfl⟩
+  | none =>
+    simp only
+    split
+    · right; right; exact ⟨trivial, rfl⟩
+    · left; rfl
+
+theorem ctxCancelGet_frame (cid : CtxId) (x : Ctx) (lid : TaskId) (next : Option TaskId) :
+    Frame x (ctxCancelGet cid x lid next).1 := by
+  rcases ctxCancelGet_fst cid x lid next with e | ⟨p0, _, e⟩ | ⟨_, e⟩ <;> rw [e]
+  · exact Frame.refl x
+  · exact Frame.trans (y := dropGen x p0.fid) ⟨rfl, rfl, rfl, rfl⟩ (resumeWaiters_frame _ _ _)
+  · exact ⟨rfl, rfl, rfl, rfl⟩
+
 theorem runBodyOp_frame (cid : CtxId) (cur : Option CtxId) (x : Ctx) (op : BodyOp) : Frame x (runBodyOp cid cur x op).1 := by
   cases op with
   | add => exact ctxAdd_frame _ _ _
@@ -564,6 +596,7 @@ inductive LocalStep (c : CtxId) (x : Ctx) : Ctx → Prop
   | getNowait (k : Key) (opt : Bool) : LocalStep c x (ctxGetNowait c x k opt).1
   | get (t : TaskId) (k : Key) (opt : Bool) : LocalStep c x (ctxGet c x t k opt).1
   | genFinish (fid : Nat) (next : Option TaskId) : LocalStep c x (ctxGenFinish c x fid next).1
+  | cancelGet (lid : TaskId) (next : Option TaskId) : LocalStep c x (ctxCancelGet c x lid next).1
   | addTeardown (cb : Cb) : LocalStep c x { x with tds := cb :: x.tds }
   | inject (t : TaskId) (isAsync : Bool) (deps : List Dep) :
       LocalStep c x (resolveDeps c isAsync t x deps).1
@@ -635,6 +668,10 @@ theorem step_cases (w : World) (op : Op) :
     rcases onCtx_cases w c (fun x => ctxGenFinish c x fid next) with h | ⟨x, hx, h⟩
     · left; exact h
     · right; left; exact ⟨c, x, _, hx, h, .genFinish fid next⟩
+  | cancelGet c lid next =>
+    rcases onCtx_cases w c (fun x => ctxCancelGet c x lid next) with h | ⟨x, hx, h⟩
+    · left; exact h
+    · right; left; exact ⟨c, x, _, hx, h, .cancelGet lid next⟩
   | getAll c ty => left; simp only [step]; split <;> rfl
   | addTeardown c cb callable =>
     cases hx : w.ctx? c with
@@ -674,6 +711,7 @@ theorem LocalStep.frame {c : CtxId} {x y : Ctx} (h : LocalStep c x y) : Frame x 
   | getNowait => exact ctxGetNowait_frame _ _ _ _
   | get => exact ctxGet_frame _ _ _ _ _
   | genFinish => exact ctxGenFinish_frame _ _ _ _
+  | cancelGet => exact ctxCancelGet_frame _ _ _ _
   | addTeardown => exact ⟨rfl, rfl, rfl, rfl⟩
   | inject => exact resolveDeps_frame _ _ _ _ _
 
@@ -1164,6 +1202,19 @@ theorem KInv.ctxGenFinish {x : Ctx} (h : KInv x) (cid : CtxId) (fid : Nat) (next
       simp only [ne_eq, decide_not, Bool.not_eq_eq_eq_not, Bool.not_true, decide_eq_false_iff_not] at this
       exact this (hpf.trans (hg2.trans h0))
 
+theorem KInv.ctxCancelGet {x : Ctx} (h : KInv x) (cid : CtxId) (lid : TaskId) (next : Option TaskId) :
+    KInv (ctxCancelGet cid x lid next).1 := by
+  rcases ctxCancelGet_fst cid x lid next with e | ⟨p0, _, e⟩ | ⟨_, e⟩ <;> rw [e]
+  · exact h
+  · have hfilt : KInv (dropGen x p0.fid) :=
+      ⟨h.facwf, h.gendone, h.once, h.known, fun p hp => h.pend p (List.mem_filter.mp hp).1⟩
+    exact hfilt.resumeWaiters cid _
+  · refine ⟨h.facwf, h.gendone, h.once, h.known, ?_⟩
+    intro q hq
+    simp only [dropWaiter, List.mem_map] at hq
+    obtain ⟨q0, hq0, rfl⟩ := hq
+    exact h.pend q0 hq0
+
 theorem KInv.runBodyOp {x : Ctx} (h : KInv x) (cid : CtxId) (cur : Option CtxId) (op : BodyOp) :
     KInv (runBodyOp cid cur x op).1 := by
   cases op with
@@ -1200,6 +1251,7 @@ theorem LocalStep.kinv {c : CtxId} {x y : Ctx} (hl : LocalStep c x y) (h : KInv 
   | getNowait => exact h.ctxGetNowait _ _ _
   | get => exact h.ctxGet _ _ _ _
   | genFinish => exact h.ctxGenFinish _ _ _
+  | cancelGet => exact h.ctxCancelGet _ _ _
   | addTeardown => exact h.congr rfl rfl rfl rfl
   | inject => exact KInv.resolveDeps _ _ _ _ h
 
